@@ -24,7 +24,7 @@ func init() {
 			if tier == "quick" {
 				return 72
 			}
-			return 300
+			return 900
 		},
 		Batch:            8,
 		Workers:          8,
